@@ -301,6 +301,7 @@ C08_SCENARIO(client_disconnect_flag_vs_loop)
   LoopHost host;
   TcpClient* client = new TcpClient(host.loop(), InetAddress("127.0.0.1", static_cast<uint16_t>(srv.port)), "c08cli");
   client->setConnectionCallback(onClientConn);
+  client->enableRetry();                      // before connect(): removeConnection evaluates `retry_ && connect_`
   client->connect();
   for (int i = 0; i < 400 && g_cup.load() == 0; ++i) ::usleep(500);
   Timestamp t0(Timestamp::now());
